@@ -112,6 +112,11 @@ def run(prog, chk):
             ok_save = bool(saves) and all(g.must_precede(saves, x) for x in execs)
             ok_clear = bool(clears) and all(g.must_precede(clears, x) for x in execs)
             ok_rest = bool(restores) and all(g.must_follow(x, restores) for x in execs)
+            # the same discipline written as a scope guard (constructor saves and clears, destructor restores)
+            from ..kguard import virtual_writes
+            gd = [n for n, m_, v_, rst in virtual_writes(prog, f, g) if m_ == flag and rst and SX.is_node(SX.strip(v_)) and SX.strip(v_).get('k') == 'bool' and not SX.strip(v_)['v']]
+            if gd and all(g.must_precede(gd, x) for x in execs):
+                ok_save = ok_clear = ok_rest = True
             chk.ob('R07.2', f, f.ln, ok_save and ok_clear and ok_rest,
                    '%s: return flag saved (%s), cleared before the body (%s), restored on every normal path (%s)' % (f.short, ok_save, ok_clear, ok_rest), key='activation:' + f.short)
             # an activation whose result is the return-value register clears the register before the body: a body that ends
@@ -493,7 +498,9 @@ def _documented_result(op, a, b):
         return 'Boolean'
     if op in ('==', '!=') and ((a in NUM and b in NUM) or (a == b and a in ('String', 'Char', 'Boolean', 'Bit'))):
         return 'Boolean'
-    if op in ('&&', '||') and a == 'Boolean' and b == 'Boolean':
+    if op in ('&&', '||') and a in ('Boolean', 'Bit') and b in ('Boolean', 'Bit') and 'Boolean' in (a, b):
+        return 'Boolean'      # a bit used as a condition counts as true iff it is 1 (measure results steer control flow)
+    if op in ('==', '!=') and {a, b} == {'Boolean', 'Bit'}:
         return 'Boolean'
     if op in ('&', '|', '^') and a == 'Bit' and b == 'Bit':
         return 'Bit'
@@ -608,6 +615,16 @@ def _tag_table(prog, chk, ev):
     chk.ob('R07.7', ev, br.get('ln', ev.ln), not vals,
            'on the representatives the result is the named operation applied to (left, right) in that order; mismatches: %s' % vals[:6], key='table:representatives')
     chk.count('documented operator/type combinations evaluated', n, 90)
+    # ---- formatting: the text of a float never goes through a narrowing integer conversion (whole-number test included) ----
+    vts = [f for f in prog.functions if f.body and f.short == 'valueToString' and f.file.endswith('runtime_evaluator.cpp')]
+    if len(vts) != 1:
+        raise AnalysisBroken('valueToString not found')
+    vt = vts[0]
+    narrow = [x for x in SX.walk(vt.body, into_lambdas=False) if x['k'] == 'cast' and x.get('type') in ('int', 'long', 'unsigned int', 'short', 'long long', 'std::int64_t') and
+              any(y.get('k') == 'member' and y.get('name') in ('floatValue',) for y in SX.walk(x['e']))]
+    chk.ob('R07.7', vt, (narrow[0].get('ln') if narrow else vt.ln), not narrow,
+           'the text of a float value is produced without converting it to an integer type (found %s): such a conversion limits the whole-number form `N.0` to the int range and is '
+           'undefined beyond it' % [SX.show(x)[:40] for x in narrow][:2], key='format:float-no-narrowing')
 
 
 def _closure_guards(canon, g, node):
